@@ -201,6 +201,63 @@ class LibMixin:
             arr = st.heap.get(key)
             st.heap[key] = z3.Store(arr, lv.oid, TRUE)
             return TupleV([])
+        if callee in ("strings.IndexByte", "strings.LastIndexByte"):
+            self.models_used.add(callee + " (first/last index of the byte, or -1)")
+            sv = self.ev(args[0], st)
+            c = self.ev(args[1], st)
+            (_, _, a), = self.region_arrays(st, sv)
+            r = self.fresh("idxb", IS)
+            j = z3.BitVec("j", IDX_BITS)
+            hit = z3.Select(a, sv.off + r) == c
+            if callee == "strings.IndexByte":
+                none_before = z3.ForAll([j], z3.Implies(z3.And(j >= 0, j < z3.If(r >= 0, r, sv.ln)), z3.Select(a, sv.off + j) != c))
+            else:
+                none_before = z3.ForAll([j], z3.Implies(z3.And(j > r, j < sv.ln), z3.Select(a, sv.off + j) != c))
+            self.facts.append(z3.And(r >= idx(-1) if False else r >= z3.BitVecVal(-1, IDX_BITS), r < sv.ln,
+                                     z3.Implies(r >= 0, hit), none_before))
+            return r
+        if callee == "strings.Index":
+            self.models_used.add("strings.Index (result -1 or 0 <= r <= len(s)-len(sub); contents of the match are not modelled)")
+            sv = self.ev(args[0], st)
+            sub = self.ev(args[1], st)
+            r = self.fresh("idxs", IS)
+            self.facts.append(z3.And(r >= z3.BitVecVal(-1, IDX_BITS), r <= sv.ln, z3.Implies(r >= 0, r + sub.ln <= sv.ln)))
+            return r
+        if callee == "strings.HasPrefix":
+            self.models_used.add("strings.HasPrefix (true implies len(s) >= len(prefix))")
+            sv = self.ev(args[0], st)
+            pre = self.ev(args[1], st)
+            r = self.fresh("hasprefix", z3.BoolSort())
+            self.facts.append(z3.Implies(r, sv.ln >= pre.ln))
+            return r
+        if callee == "strings.Fields":
+            self.models_used.add("strings.Fields (fresh slice of at most len(s) non-empty substrings of s)")
+            sv = self.ev(args[0], st)
+            t = self.T(e)
+            res = self.fresh_value(t, "fields")
+            self.type_facts(st, res, t, param=False)
+            k = z3.BitVec("k", IDX_BITS)
+            arrs = self.region_arrays(st, res)   # leaves of string elem: rid, off, len
+            (_, _, ar), (_, _, ao), (_, _, al) = arrs
+            self.facts.append(z3.And(
+                z3.UGE(res.rid, rid(FRESH_BASE)), res.off == idx(0), res.ln <= sv.ln, res.cap == res.ln,
+                z3.ForAll([k], z3.Implies(z3.And(k >= 0, k < res.ln),
+                                          z3.And(z3.Select(ar, k) == sv.rid, z3.Select(ao, k) >= sv.off, z3.Select(al, k) > 0,
+                                                 z3.Select(ao, k) + z3.Select(al, k) <= sv.off + sv.ln)))))
+            self.alloc_sites.append((e, res.ln, t.elem(), st.pc))
+            self.count_alloc(st, res.ln, t.elem())
+            return res
+        if callee in ("strings.ToUpper", "strings.ToLower", "strings.TrimSpace", "fmt.Sprintf", "fmt.Sprint", "strconv.Quote", "strconv.Itoa"):
+            self.models_used.add(callee + " (some string; contents not modelled)")
+            for a in args:
+                try:
+                    self.ev(a, st)
+                except Unsupported:
+                    pass
+            t = self.T(e)
+            res = self.fresh_value(t, "str")
+            self.type_facts(st, res, t, param=False)
+            return res
         if callee in ("math.IsNaN", "math.IsInf"):
             self.models_used.add(callee + " (IEEE-754 classification)")
             x = self.ev(args[0], st)
@@ -259,5 +316,5 @@ class LibMixin:
         return zand(a.tag != rid(0), zor(*alts))
 
 
-LIB_PURE = {"math.IsNaN", "math.IsInf", "errors.Join", "strconv.ParseInt", "strconv.ParseUint", "strconv.ParseFloat", "strconv.ParseBool", "strconv.Atoi", "errors.As", "slices.Grow", "sync.(*Once).Do", "errors.New", "fmt.Errorf", "errors.Is", "bytes.Clone", "slices.Clone", "math.Float64bits", "math.Float64frombits",
+LIB_PURE = {"strings.IndexByte", "strings.LastIndexByte", "strings.Index", "strings.HasPrefix", "strings.Fields", "strings.ToUpper", "strings.ToLower", "strings.TrimSpace", "fmt.Sprintf", "fmt.Sprint", "strconv.Quote", "strconv.Itoa", "math.IsNaN", "math.IsInf", "errors.Join", "strconv.ParseInt", "strconv.ParseUint", "strconv.ParseFloat", "strconv.ParseBool", "strconv.Atoi", "errors.As", "slices.Grow", "sync.(*Once).Do", "errors.New", "fmt.Errorf", "errors.Is", "bytes.Clone", "slices.Clone", "math.Float64bits", "math.Float64frombits",
             "math.Float32bits", "math.Float32frombits"}
